@@ -278,7 +278,17 @@ class RZILTransformer(Transformer):
                     Assignment("set_return_val", AssignmentType.ASSIGN, ret_val, src)
                 )
             )
+        if items[0] in ["goto", "continue", "break", "return"]:
+            # Silently passing these upwards would drop them from the instruction sequence.
+            raise NotImplementedError(f'"{items[0]}" statement not supported.')
         return items  # Pass them upwards
+
+    def labeled_stmt(self, items):
+        raise NotImplementedError("Labeled statements (labels, case, default) are not supported.")
+
+    def expr(self, items):
+        # Only reached for "expr , assignment_expr". Single expressions are inlined.
+        raise NotImplementedError("Comma expressions are not supported.")
 
     def relational_expr(self, items):
         self.ext.set_token_meta_data("relational_expr")
